@@ -827,6 +827,31 @@ func checkPublishedPEMPlain(c *km.Ctx, rule string) {
 			}
 			n++
 			c.R.Add(rule, km.FuncName(fn), "certificate PEM block", posOf(c, ci), "Type CERTIFICATE and no headers (loaders skip blocks that carry headers)", "headers set at "+hdr, hdr == "")
+			// the CA bundle the server publishes holds every CA certificate it has (a user certificate signed under
+			// the second CA verifies against the published bundle too): the block's bytes are the element of a loop
+			// over all of caCertDer, never one picked by a constant index
+			for _, ref := range *blk.Referrers() {
+				fa, ok := ref.(*ssa.FieldAddr)
+				if !ok || fieldNameOf(fa) != "Bytes" {
+					continue
+				}
+				for _, r2 := range *fa.Referrers() {
+					st, ok := r2.(*ssa.Store)
+					if !ok || st.Addr != ssa.Value(fa) {
+						continue
+					}
+					u, isU := km.Unwrap(st.Val).(*ssa.UnOp)
+					if !isU || u.Op != token.MUL {
+						continue
+					}
+					ia, isIA := u.X.(*ssa.IndexAddr)
+					if !isIA || !mentionsField(ia.X, "caCertDer") || km.NameOf(fn) != "publicPathHandler" {
+						continue
+					}
+					_, constIdx := km.ConstInt(ia.Index)
+					c.R.Add(rule, km.FuncName(fn), "published CA bundle", posOf(c, ci), "every certificate of caCertDer is encoded (a loop over all of it)", "index "+km.ValStr(ia.Index), !constIdx && isWholeRangeIndex(ia.Index))
+				}
+			}
 		}
 	}
 	if n == 0 {
